@@ -258,9 +258,10 @@ class ReservedResources():
                 if amount < 0:
                     raise ValueError(f'Trying to release a negative amount of {resource_name}')
                 try:
-                    if amount != 0 and self._reserved_resources[resource_name] < amount:
+                    reserved_amount = self._reserved_resources[resource_name]
+                    if amount != 0 and reserved_amount < amount:
                         raise ValueError(f'Trying to release {amount} of {resource_name} but only ' + \
-                                        f'{self._reserved_resources[resource_name]} is reserved.')
+                                        f'{reserved_amount} is reserved.')
                 except KeyError:
                     raise KeyError(f'This request did not reserve any {resource_name}')
 
